@@ -25,7 +25,7 @@ META = dict(
         "the split/rejoin law is asserted only for independent parts (no B-C edge, individual or population; "
         "populations of C not referenced elsewhere; individual parent links visible on the side of the child)",
     ],
-    BUDGET={"quick": 45.0,
+    BUDGET={"quick": 40.0,
             # seconds per worker; VERIF_C14_THOROUGH_BUDGET shortens it for development runs only
             "thorough": float(os.environ.get("VERIF_C14_THOROUGH_BUDGET", 840.0))},
 )
